@@ -271,6 +271,12 @@ def monitor_c12(ctx):
     pays = [{'line': l} for l in _eval_lines_from(ctx)]
     for c in gens2.alias_cases(ctx['seed'], sz(ctx, 1500, 10000)):
         pays.append({'line': c[0]})
+    for kind in ('lock', 'gen', 'rlock', 'obj'):
+        for shape in ('dict', 'list'):
+            for src in ['x = h', 'x = [h]', 'x = h; x["cart"].push(9)', 'c = {}; c["k"] = h', 'c = [0]; c[0] = h', 'x = []; x += h',
+                        'c = [[0]]; c[0] += h', 'x = h or 0', 'x = {"a": h}', 'y = h["cart"]' if shape == 'dict' else 'y = h[0]',
+                        'y = h["meta"]' if shape == 'dict' else 'y = h[2]', 'x = [h["cart"], h["meta"]]' if shape == 'dict' else 'x = [h[0], h[2]]']:
+                pays.append({'hostobj': kind, 'shape': shape, 'src': src})
     return _run('c12', 'c12', pays, 'all assignment forms from host objects, then non-linking mutations through either side: the mutable objects '
                 'reachable from the stored value and from the source (id-sets) must be disjoint')
 
